@@ -27,8 +27,11 @@ EXH = {  # exhaustive writer bounds per tier (Prefix "dtd": the behaviours that 
              NStylesGood=2, NStylesBad=1, NLexStyles=2),
     ],
     "thorough": [
-        dict(MaxTokens=5, MaxDepth=3, MaxBad=1, MaxTop=2, MaxDtd=2, MaxTrunc=2, Wide="FALSE", Prefix='"none"',
+        dict(MaxTokens=5, MaxDepth=3, MaxBad=1, MaxTop=3, MaxDtd=3, MaxTrunc=3, Wide="FALSE", Prefix='"none"',
              NStylesGood=6, NStylesBad=2, NLexStyles=6),
+        # every well-formed behaviour of up to 7 tokens (no bad action, short prolog / DTD)
+        dict(MaxTokens=7, MaxDepth=3, MaxBad=0, MaxTop=1, MaxDtd=1, MaxTrunc=0, Wide="FALSE", Prefix='"none"',
+             NStylesGood=2, NStylesBad=1, NLexStyles=2),
         dict(MaxTokens=15, MaxDepth=2, MaxBad=1, MaxTop=2, MaxDtd=0, MaxTrunc=0, Wide="FALSE", Prefix='"dtd"',
              NStylesGood=3, NStylesBad=1, NLexStyles=3),
     ],
